@@ -50,6 +50,7 @@ def validate(rep, histories, label):
         if hid in bad:
             kinds = sorted(set(b["kind"] for b in bad[hid]))
             sig = {"kind": kinds[0], "explained_by_code_model": bool(explained[hid]), "first_bad_event": min(b["at"] for b in bad[hid]),
+                   "rmdir_of_dependency_dir": any(e.get("ev") == "rmdir" and e.get("d") == "lib" for e in h["events"]),
                    "history": [" ".join(str(e.get(k, "")) for k in ("ev", "f", "v")).strip() for e in h["events"]][:40]}
             rep.violation(sig, h)
         elif not explained[hid]:
